@@ -296,6 +296,19 @@ fn main() {
         sweep(&run, &s4b[i], &s4bp, &mut t);
         t
     });
+    // S5: structured operands (word limits, word-crossing products, carry chains, all-ones words; the patterns
+    // at every length are S4b) x scales x written-out trailing zeros
+    let st = structured_ints(1, tier.pick(24, 60), run.seed());
+    let s5p: Vec<u64> = tier.pick(vec![1, 16, 19, 38, 100], vec![1, 2, 9, 16, 18, 19, 20, 37, 38, 39, 77, 100, 101]);
+    run.bound("S5_structured_integers", st.len());
+    run.bound("S5_precisions", json!(s5p));
+    run.par_opts("S5 structured operands", st.len(), 60, &|i| json!({"x": st[i].to_string()}), |i| {
+        let mut t = Tally::default();
+        for x in structured_decimals(&st[i..=i], &[0, 5, -5], &[0, 1, 12]) {
+            sweep(&run, &x, &s5p, &mut t);
+        }
+        t
+    });
     let _ = BigInt::zero();
     run.finish();
 }
